@@ -38,12 +38,12 @@ fn toy_voice(shift: f64) -> Voice {
     let windows = || Windows::new(vec![Window::new(vec![1.0]), Window::new(vec![-0.5, 0.0, 0.5])]);
     let duration_model = Model::new(vec![two_leaf_tree(2, "*-sil+*")], vec![vec![pdf(&[2.0], 1.0, None), pdf(&[3.0], 1.0, None)]]);
     let mcp = StreamModels::new(
-        StreamModelMetadata { vector_length: 2, num_windows: 2, is_msd: false, use_gv: true, option: vec!["ALPHA=0.3".into()] },
+        StreamModelMetadata { vector_length: 3, num_windows: 2, is_msd: false, use_gv: true, option: vec!["ALPHA=0.3".into()] },
         Model::new(
             vec![two_leaf_tree(2, "*-b+*")],
-            vec![vec![pdf(&[0.4 + shift, 0.1, 0.0, 0.0], 0.2, None), pdf(&[0.6 + shift, -0.1, 0.0, 0.0], 0.2, None)]],
+            vec![vec![pdf(&[0.4 + shift, 0.1, -0.05, 0.0, 0.0, 0.0], 0.2, None), pdf(&[0.6 + shift, -0.1, 0.08, 0.0, 0.0, 0.0], 0.2, None)]],
         ),
-        Some(Model::new(vec![two_leaf_tree(2, "*-sil+*")], vec![vec![pdf(&[0.02, 0.01], 0.005, None), pdf(&[0.03, 0.02], 0.005, None)]])),
+        Some(Model::new(vec![two_leaf_tree(2, "*-sil+*")], vec![vec![pdf(&[0.02, 0.01, 0.01], 0.005, None), pdf(&[0.03, 0.02, 0.01], 0.005, None)]])),
         windows(),
     );
     let lf0 = StreamModels::new(
@@ -172,12 +172,34 @@ fn scenario_c() {
     assert_eq!(bits(&side.join().unwrap()), bits(&other_ref), "C03: synthesis on another engine was disturbed");
 }
 
+/// D: two threads synthesize one very short utterance with the postfilter on (beta > 0): the
+/// per-frame energy normalisation path (a 576-tap impulse response, expensive under Miri) runs
+fn scenario_d() {
+    let mut eng = engine(0.0);
+    eng.condition.set_beta(0.4);
+    eng.condition.set_speed(8.0);
+    let e = Arc::new(eng);
+    let reference = e.synthesize(&LABELS[..1]).unwrap();
+    assert!(!reference.is_empty());
+    let hs: Vec<_> = (0..2)
+        .map(|_| {
+            let e = e.clone();
+            std::thread::spawn(move || e.synthesize(&LABELS[..1]).unwrap())
+        })
+        .collect();
+    for h in hs {
+        let w = h.join().unwrap();
+        assert_eq!(bits(&w), bits(&reference), "C03: concurrent synthesize (postfilter on) on a shared engine differs from the sequential result");
+    }
+}
+
 fn main() {
     let which = std::env::args().nth(1).unwrap_or_else(|| "A".into());
     match which.as_str() {
         "A" => scenario_a(),
         "B" => scenario_b(),
         "C" => scenario_c(),
+        "D" => scenario_d(),
         _ => panic!("unknown scenario"),
     }
     println!("scenario {} ok", which);
